@@ -2,6 +2,7 @@
 From Coq Require Import List String.
 From SCC Require Import Base.Sexp Model.RunBase Model.RunPM Model.RunX86.
 From SCC Require Import Base.Sexp Model.RunBase Model.RunPM Model.RunStages.
+From SCC Require Import Base.Sexp Model.RunBase Model.RunRV.
 From SCC Require Import Model.RunA64.
 From SCC Require Import Base.Sexp Model.RunBase Model.RunShrink.
 From SCC Require Import Model.RunFocus.
@@ -11,7 +12,6 @@ From SCC Require Import Model.RunRT.
 From SCC Require Import Model.RunLin.
 From SCC Require Import Base.Sexp Model.RunBase Model.RunCheck.
 From SCC Require Import Model.RunFmt.
-From SCC Require Import Base.Sexp Model.RunBase Model.RunRV.
 From SCC Require Import Model.RunHeapOps.
 Open Scope string_scope.
 
@@ -26,6 +26,8 @@ Definition dispatch (cmd : string) (input : string) : string :=
   | "show-x86" => run_show_x86 input
   | "c10-x86" => run_c10_x86 input
   | "stages" => run_stages input
+  | "codegen-rv" => run_codegen_rv input
+  | "sem-rv" => run_sem_rv input
   | "codegen-a64" => run_codegen_a64 input
   | "shrink" => run_shrink input
   | "shrink-why" => run_shrink_why input
@@ -36,8 +38,6 @@ Definition dispatch (cmd : string) (input : string) : string :=
   | "rt" => run_rt input
   | "check" => run_check input
   | "fmt" => run_fmt input
-  | "codegen-rv" => run_codegen_rv input
-  | "sem-rv" => run_sem_rv input
   | "heapops-x86" => run_heapops_x86 input
   | _ => "BAD - unknown command " ++ cmd ++ nl
   end.
